@@ -170,3 +170,17 @@ func (s *Sched) PendingTimers() int {
 	defer s.mu.Unlock()
 	return len(s.timers)
 }
+
+// nextTimerInLocked returns the virtual time until the earliest pending timer.
+func (s *Sched) nextTimerInLocked() int64 {
+	best := int64(1) << 62
+	for _, t := range s.timers {
+		if d := t.when - s.now; d < best {
+			best = d
+		}
+	}
+	if best < 0 {
+		best = 0
+	}
+	return best
+}
